@@ -212,6 +212,7 @@ m("C15", "framing/line.py", "lines[0] = acc + lines[0]", "lines[0] = lines[0] + 
 m("C15", "framing/length_prefix.py", "while bio_len - offset >= prefix_size:", "while prefix_size <= bio_len - offset:", "silent")
 m("C15", "framing/line.py", "                if len(acc) > 0:", "                if acc:", "silent")
 # ---------------------------------------------------------------- C16
+m("C16", "compression/zstd.py", "                    if decompressor.eof and len(i) == 0:\n                        # nothing left to decode; the decompression object\n                        # accepts no more calls once its frame is complete\n                        return\n", "", "fire", ["OB-4"], "the zstd defect repaired by 93f7d05, re-introduced (no guard for an empty chunk after the end of the stream)")
 m("C16", "compression/z.py", "                    data = compressor.flush()\n                    observer.on_next(data)\n                    observer.on_completed()", "                    observer.on_completed()", "fire", ["OB-2", "AG-6"])
 m("C16", "compression/z.py", "decompressor = zlib.decompressobj(wbits = zlib.MAX_WBITS | 16)", "decompressor = zlib.decompressobj(wbits = zlib.MAX_WBITS)", "fire", ["AG-5"])
 m("C16", "compression/zstd.py", "                    if not decompressor.eof:\n                        observer.on_error(RuntimeError(\"zstd.decompress: Invalid state at observable completion\"))\n                    else:\n                        data = decompressor.flush()\n                        observer.on_next(data)\n                        observer.on_completed()", "                    data = decompressor.flush()\n                    observer.on_next(data)\n                    observer.on_completed()", "fire", ["OB-3", "AG-6"])
